@@ -12,11 +12,11 @@ Proof.
   destruct (drop_closed now its) as [|x r] eqn:E.
   - cbn. tauto.
   - assert (H : snd (abs_next now f (x :: r)) = true).
-    { destruct x as [t|g]; [reflexivity|].
+    { destruct x as [t|s0 g]; [reflexivity|].
       (* the head of a drop_closed result is an open window *)
       assert (O : now <? g = true).
       { clear -E. induction its as [|y q IH]; [discriminate|].
-        destruct y as [u|h]; cbn [drop_closed] in E; [discriminate|].
+        destruct y as [u|s1 h]; cbn [drop_closed] in E; [discriminate|].
         destruct (now <? h) eqn:L; [inversion E; subst; exact L|auto]. }
       cbn [abs_next]. rewrite O. reflexivity. }
     rewrite H. split; [|discriminate].
@@ -37,7 +37,7 @@ Proof.
   rewrite an_dc. unfold abs_left.
   destruct (existsb is_window (drop_closed now its)) eqn:W; [lia|]. intros _.
   destruct (drop_closed now its) as [|x r] eqn:E; [discriminate|].
-  destruct x as [u|g]; [|discriminate].
+  destruct x as [u|s0 g]; [|discriminate].
   cbn [abs_next]. intros H; inversion H; subst.
   cbn [existsb is_window orb] in W.
   rewrite (no_window_dc now its' W), W. cbn [length]. lia.
@@ -56,7 +56,7 @@ Fixpoint nexts (nows : list Z) (f : Z) (its : list item) : list (Z * bool) :=
   | now :: r => let '(its', t, ok) := abs_next now f its in (t, ok) :: nexts r f its'
   end.
 
-Definition tok_time (x : item) : Z := match x with IT t => t | IW g => g end.
+Definition tok_time (x : item) : Z := match x with IT t => t | IW _ g => g end.
 
 (* without unlimited parts: the calls return exactly the tokens, in order, each once, and
    then the finish time for ever *)
@@ -69,66 +69,56 @@ Proof.
   destruct its as [|x q].
   - cbn [nexts abs_next]. rewrite (IH f [] eq_refl). cbn [map length]. rewrite !firstn_nil. cbn [app].
     rewrite !Nat.sub_0_r. reflexivity.
-  - destruct x as [t|g]; [|discriminate]. cbn [existsb is_window orb] in W.
+  - destruct x as [t|s0 g]; [|discriminate]. cbn [existsb is_window orb] in W.
     cbn [nexts abs_next]. rewrite (IH f q W). reflexivity.
 Qed.
 
 (* ---------- times never decrease ---------- *)
-Fixpoint ordered (lo : Z) (its : list item) (fin : Z) : Prop :=
+(* [ordered lo m its fin]: the remaining stream is sorted above [lo]; [m] is a lower bound of the
+   clock.  A window [st,fin) answers max(now,st): it is above [lo] as soon as lo <= max m st. *)
+Fixpoint ordered (lo m : Z) (its : list item) (fin : Z) : Prop :=
   match its with
   | [] => lo <= fin
-  | x :: r => lo <= tok_time x /\ ordered (tok_time x) r fin
+  | IT t :: r => lo <= t /\ ordered t m r fin
+  | IW s g :: r => lo <= g /\ s <= g /\ lo <= Z.max m s /\ ordered g m r fin
   end.
 
 Fixpoint nondecr (last : Z) (l : list (Z * bool)) : Prop :=
   match l with [] => True | (t, _) :: r => last <= t /\ nondecr t r end.
 
-(* the caller waits: its clock at a call is not before the time it was given last *)
-Fixpoint waits (last : Z) (nows : list Z) (f : Z) (its : list item) : Prop :=
-  match nows with
-  | [] => True
-  | now :: r => last <= now /\ let '(its', t, _) := abs_next now f its in waits t r f its'
-  end.
+Fixpoint clock_mono (m : Z) (nows : list Z) : Prop :=
+  match nows with [] => True | now :: r => m <= now /\ clock_mono now r end.
 
-Lemma next_ordered now f : forall its lo its' t ok,
-  ordered lo its f -> lo <= now -> abs_next now f its = (its', t, ok) -> lo <= t /\ ordered t its' f.
+Lemma ordered_clock lo m m' its f : m <= m' -> ordered lo m its f -> ordered lo m' its f.
 Proof.
-  induction its as [|x r IH]; intros lo its' t ok O L H; cbn [abs_next] in H.
+  intros L. revert lo. induction its as [|x r IH]; intros lo O; cbn [ordered] in *; [exact O|].
+  destruct x as [t|s g].
+  - destruct O; split; auto.
+  - destruct O as (A & B & C & D). repeat split; auto; lia.
+Qed.
+
+Lemma next_ordered now f : forall its lo m its' t ok,
+  ordered lo m its f -> m <= now -> abs_next now f its = (its', t, ok) -> lo <= t /\ ordered t now its' f.
+Proof.
+  induction its as [|x r IH]; intros lo m its' t ok O L H; cbn [abs_next] in H.
   - inversion H; subst. cbn in *. split; lia.
-  - destruct O as [O1 O2]. destruct x as [u|g]; cbn [tok_time] in *.
-    + inversion H; subst. split; assumption.
-    + destruct (now <? g) eqn:E.
-      * inversion H; subst. apply Z.ltb_lt in E. split; [exact L|]. cbn [ordered tok_time]. split; [lia|exact O2].
-      * apply Z.ltb_ge in E. destruct (IH g its' t ok O2 E H) as [A B]. split; [lia|exact B].
+  - destruct x as [u|s g]; cbn [ordered] in O.
+    + destruct O as [O1 O2]. inversion H; subst. split; [assumption|]. eapply ordered_clock; eauto.
+    + destruct O as (A & B & C & D). destruct (now <? g) eqn:E.
+      * inversion H; subst. apply Z.ltb_lt in E. split; [lia|]. cbn [ordered].
+        repeat split; try lia. eapply ordered_clock; eauto.
+      * apply Z.ltb_ge in E. destruct (IH g m its' t ok D L H) as [X Y]. split; [lia|exact Y].
 Qed.
 
-Lemma nexts_nondecr : forall nows f its lo,
-  ordered lo its f -> waits lo nows f its -> nondecr lo (nexts nows f its).
+(* the times returned by successive Next calls never decrease, for every non-decreasing clock *)
+Lemma nexts_nondecr : forall nows f its lo m,
+  ordered lo m its f -> clock_mono m nows -> nondecr lo (nexts nows f its).
 Proof.
-  induction nows as [|now r IH]; intros f its lo O Wt; [exact I|].
-  cbn [nexts waits] in *. destruct Wt as [L Wt].
+  induction nows as [|now r IH]; intros f its lo m O C; [exact I|].
+  cbn [nexts clock_mono] in *. destruct C as [L C].
   destruct (abs_next now f its) as [[its' t] ok] eqn:E.
-  destruct (next_ordered now f its lo its' t ok O L E) as [A B].
-  cbn [nondecr]. split; [exact A|]. apply IH; assumption.
-Qed.
-
-(* without unlimited parts no assumption on the clock is needed *)
-Lemma next_ordered_nowin now f : forall its lo its' t ok,
-  existsb is_window its = false -> ordered lo its f -> abs_next now f its = (its', t, ok) ->
-  lo <= t /\ ordered t its' f /\ existsb is_window its' = false.
-Proof.
-  intros its lo its' t ok W O H. destruct its as [|x r]; cbn [abs_next] in H.
-  - inversion H; subst. cbn in *. repeat split; lia.
-  - destruct x as [u|g]; [|discriminate]. inversion H; subst. destruct O. cbn in W. repeat split; assumption.
-Qed.
-
-Lemma nexts_nondecr_nowin : forall nows f its lo,
-  existsb is_window its = false -> ordered lo its f -> nondecr lo (nexts nows f its).
-Proof.
-  induction nows as [|now r IH]; intros f its lo W O; [exact I|].
-  cbn [nexts]. destruct (abs_next now f its) as [[its' t] ok] eqn:E.
-  destruct (next_ordered_nowin now f its lo its' t ok W O E) as (A & B & C).
-  cbn [nondecr]. split; [exact A|]. apply IH; assumption.
+  destruct (next_ordered now f its lo m its' t ok O L E) as [A B].
+  cbn [nondecr]. split; [exact A|]. eapply IH; eauto.
 Qed.
 
 (* the stream of a configuration is ordered when every leaf is well behaved *)
@@ -143,45 +133,72 @@ Definition leaf_ok (x : sched) : Prop :=
 Definition unstarted (x : sched) : Prop :=
   match x with DoAt _ _ _ i None => i = 0%nat | Unlim _ None => True | _ => False end.
 
-Lemma ordered_app lo a b f m :
-  (forall lo', ordered lo' a m -> True) ->
-  ordered lo a m -> ordered m b f -> ordered lo (a ++ b) f.
+Lemma ordered_lower lo lo' m its f : lo <= lo' -> ordered lo' m its f -> ordered lo m its f.
 Proof.
-  intros _. revert lo. induction a as [|x r IH]; intros lo Oa Ob; cbn [app ordered] in *.
-  - destruct b as [|y q]; cbn [ordered] in *; [lia|]. destruct Ob; split; [lia|assumption].
-  - destruct Oa. split; [assumption|]. apply IH; assumption.
+  destruct its as [|x r]; cbn [ordered]; [lia|]. destruct x as [t|s g].
+  - intros L [A B]. split; [lia|exact B].
+  - intros L (A & B & C & D). repeat split; auto; lia.
 Qed.
 
-Lemma ordered_tokens s0 (a : nat -> Z) n d : forall i lo,
+Lemma ordered_app lo m a b f mid :
+  ordered lo m a mid -> ordered mid m b f -> ordered lo m (a ++ b) f.
+Proof.
+  revert lo. induction a as [|x r IH]; intros lo Oa Ob; cbn [app ordered] in *.
+  - eapply ordered_lower; eauto.
+  - destruct x as [t|s g].
+    + destruct Oa. split; [assumption|]. apply IH; assumption.
+    + destruct Oa as (A & B & C & D). repeat split; auto.
+Qed.
+
+(* without unlimited parts no assumption on the clock is needed *)
+Lemma next_ordered_nowin now f : forall its lo m its' t ok,
+  existsb is_window its = false -> ordered lo m its f -> abs_next now f its = (its', t, ok) ->
+  lo <= t /\ ordered t m its' f /\ existsb is_window its' = false.
+Proof.
+  intros its lo m its' t ok W O H. destruct its as [|x r]; cbn [abs_next] in H.
+  - inversion H; subst. cbn in *. repeat split; lia.
+  - destruct x as [u|s g]; [|discriminate]. inversion H; subst. destruct O. cbn in W. repeat split; assumption.
+Qed.
+
+Lemma nexts_nondecr_nowin : forall nows f its lo m,
+  existsb is_window its = false -> ordered lo m its f -> nondecr lo (nexts nows f its).
+Proof.
+  induction nows as [|now r IH]; intros f its lo m W O; [exact I|].
+  cbn [nexts]. destruct (abs_next now f its) as [[its' t] ok] eqn:E.
+  destruct (next_ordered_nowin now f its lo m its' t ok W O E) as (A & B & C).
+  cbn [nondecr]. split; [exact A|]. eapply IH; eauto.
+Qed.
+
+Lemma ordered_tokens s0 (a : nat -> Z) n d m : forall i lo,
   (forall k, (k < n)%nat -> 0 <= a k <= d) ->
   (forall j k, (j <= k)%nat -> (k < n)%nat -> a j <= a k) ->
   0 <= d -> (i <= n)%nat ->
   lo <= s0 + d -> (forall k, (i <= k)%nat -> (k < n)%nat -> lo <= s0 + a k) ->
-  ordered lo (map (fun k => IT (s0 + a k)) (seq i (n - i))) (s0 + d).
+  ordered lo m (map (fun k => IT (s0 + a k)) (seq i (n - i))) (s0 + d).
 Proof.
-  intros i lo B M D. remember (n - i)%nat as m eqn:Em. revert i lo Em.
-  induction m as [|m IH]; intros i lo Em Li L1 L2; cbn [seq map ordered].
+  intros i lo B M D. remember (n - i)%nat as k0 eqn:Em. revert i lo Em.
+  induction k0 as [|k0 IH]; intros i lo Em Li L1 L2; cbn [seq map ordered].
   - exact L1.
-  - cbn [tok_time]. split; [apply L2; lia|].
+  - split; [apply L2; lia|].
     apply IH; try lia.
     + specialize (B i ltac:(lia)). lia.
     + intros k K1 K2. specialize (M i k ltac:(lia) K2). lia.
 Qed.
 
-Lemma items_ordered : forall fl p,
+Lemma items_ordered : forall fl p m,
   Forall leaf_ok fl -> Forall unstarted fl ->
-  ordered p (fst (items_from p fl)) (snd (items_from p fl)).
+  ordered p m (fst (items_from p fl)) (snd (items_from p fl)).
 Proof.
-  induction fl as [|x r IH]; intros p Ho Hu; [cbn; lia|].
+  induction fl as [|x r IH]; intros p m Ho Hu; [cbn; lia|].
   inversion Ho as [|? ? Ox Or]; subst. inversion Hu as [|? ? Ux Ur]; subst.
   destruct x as [n d a i [t|]|d [g|]|l la cs]; cbn [leaf_ok unstarted] in *; try tauto.
   - subst i. destruct Ox as (D & B & M). cbn [items_from].
-    specialize (IH (p + d) Or Ur). destruct (items_from (p + d) r) as [its f]. cbn [fst snd] in *.
-    apply (ordered_app p _ its f (p + d)); [auto| |exact IH].
+    specialize (IH (p + d) m Or Ur). destruct (items_from (p + d) r) as [its f]. cbn [fst snd] in *.
+    apply (ordered_app p m _ its f (p + d)); [|exact IH].
     apply ordered_tokens; auto; try lia.
     intros k _ K. specialize (B k K). lia.
-  - cbn [items_from]. specialize (IH (p + d) Or Ur). destruct (items_from (p + d) r) as [its f].
-    cbn [fst snd ordered tok_time] in *. split; [lia|exact IH].
+  - cbn [items_from]. specialize (IH (p + d) m Or Ur). destruct (items_from (p + d) r) as [its f].
+    cbn [fst snd ordered] in *. repeat split; try lia. exact IH.
 Qed.
 
 (* ---------- each part starts at the finish time of the part before it ---------- *)
@@ -192,7 +209,7 @@ Proof. cbn [items_from]. destruct (items_from (p + d) r). rewrite Nat.sub_0_r. r
 
 Lemma items_chain_unl p d r :
   items_from p (Unlim d None :: r) =
-  (IW (p + d) :: fst (items_from (p + d) r), snd (items_from (p + d) r)).
+  (IW (p + d - d) (p + d) :: fst (items_from (p + d) r), snd (items_from (p + d) r)).
 Proof. cbn [items_from]. destruct (items_from (p + d) r). reflexivity. Qed.
 
 (* ---------- instance_step ---------- *)
